@@ -43,7 +43,7 @@ def plan(tier, seed):
     else:
         for i in range(6):
             shards.append({"kind": "silent", "tier": tier, "seed": seed, "shard": i, "start": [1, 30000, 65000, 65535, 100, 64000][i],
-                           "datagrams": 210000, "dt": [1 / 60, 1 / 30, 1 / 60, 1 / 120, 1 / 60, 1 / 20][i], "subprocess": True})
+                           "datagrams": 400000, "dt": [1 / 60, 1 / 30, 1 / 60, 1 / 120, 1 / 60, 1 / 20][i], "subprocess": True})
         shards.append({"kind": "burst", "tier": tier, "seed": seed, "shard": 0, "ticks": 60000, "subprocess": True})
         for off in (-3, -2, -1, 0, 1, 2, 3):
             shards.append({"kind": "mirror", "tier": tier, "seed": seed, "shard": off, "offset": off, "ticks": 140000, "start": 1, "subprocess": True})
